@@ -448,4 +448,99 @@ theorem claims_only_no_quorum (sv : SigCheck) (h r t : Nat) (vals : Vals)
 example : (run svSome (new 5 0 2 vals30) [.peer 1 bA, .peer 2 bA', .peer 1 bA']).peerMaj.length = 2 ∧
     makeCommit (run svSome (new 5 0 2 vals30) [.peer 1 bA, .peer 2 bA', .peer 1 bA']) = none := by decide
 
+theorem addToBlock_peerMaj (s : VoteSet) (v : Vote) (k : Key) (pw : Int) (bv : BlockVotes) :
+    (addToBlock s v k pw bv).peerMaj = s.peerMaj := by
+  unfold addToBlock
+  simp only
+  split
+  · split <;> rfl
+  · rfl
+
+theorem addTracked_peerMaj (s : VoteSet) (v : Vote) (k : Key) (pw : Int) (c : Option Vote) :
+    (addTracked s v k pw c).1.peerMaj = s.peerMaj := by
+  unfold addTracked
+  split
+  · split
+    · rfl
+    · exact addToBlock_peerMaj ..
+  · split
+    · rfl
+    · exact addToBlock_peerMaj ..
+
+theorem addVerified_peerMaj (s : VoteSet) (v : Vote) (k : Key) (pw : Int) (r : VoteSet × Bool × Option Vote)
+    (h : addVerified s v k pw = some r) : r.1.peerMaj = s.peerMaj := by
+  unfold addVerified at h
+  split at h
+  · split at h
+    · cases h
+    · simp only [Option.some.injEq] at h
+      subst h
+      rw [addTracked_peerMaj]
+      split <;> rfl
+  · simp only [Option.some.injEq] at h
+    subst h
+    rw [addTracked_peerMaj]
+
+/-- votes never touch the record of peer claims -/
+theorem addVote_peerMaj (sv : SigCheck) (s : VoteSet) (ov : Option Vote) :
+    (addVote sv s ov).1.peerMaj = s.peerMaj := by
+  unfold addVote
+  dsimp only
+  repeat' split
+  all_goals first | rfl | (have := addVerified_peerMaj _ _ _ _ _ ‹addVerified _ _ _ _ = some _›; simpa using this)
+
+theorem peerLookup_none_iff (p : Nat) (l : List (Nat × BlockId)) :
+    peerLookup p l = none ↔ p ∉ l.map (·.1) := by
+  induction l with
+  | nil => simp [peerLookup]
+  | cons x xs ih =>
+    obtain ⟨p', b'⟩ := x
+    simp only [peerLookup, List.map_cons, List.mem_cons, not_or]
+    split
+    · rename_i hp; simp [hp]
+    · rename_i hp; rw [ih]; constructor
+      · intro h; exact ⟨fun e => hp e.symm, h⟩
+      · intro h; exact h.2
+
+theorem setPeerMaj23_peers_nodup (s : VoteSet) (p : Nat) (b : BlockId)
+    (h : (s.peerMaj.map (·.1)).Nodup) : ((setPeerMaj23 s p b).1.peerMaj.map (·.1)).Nodup := by
+  have key : peerLookup p s.peerMaj = none → ((s.peerMaj ++ [(p, b)]).map (·.1)).Nodup := by
+    intro hn
+    rw [peerLookup_none_iff] at hn
+    simp only [List.map_append, List.map_cons, List.map_nil]
+    rw [List.nodup_append]
+    refine ⟨h, by simp, ?_⟩
+    intro a ha c hc
+    simp only [List.mem_singleton] at hc
+    subst hc
+    intro e; subst e; exact hn ha
+  unfold setPeerMaj23
+  dsimp only
+  split
+  · split <;> exact h
+  · rename_i hn
+    split
+    · split <;> exact key hn
+    · exact key hn
+
+/-- over every run from a fresh vote set, each peer has at most one recorded claim (so the number
+of extra per-block buckets claims can open is bounded by the number of peers) -/
+theorem one_claim_per_peer (sv : SigCheck) (h r t : Nat) (vals : Vals) (ops : List Op) :
+    ((run sv (new h r t vals) ops).peerMaj.map (·.1)).Nodup := by
+  suffices ∀ s : VoteSet, (s.peerMaj.map (·.1)).Nodup → ((run sv s ops).peerMaj.map (·.1)).Nodup from
+    this _ (by simp [new])
+  induction ops with
+  | nil => intro s hs; simpa [run] using hs
+  | cons o os ih =>
+    intro s hs
+    simp only [run, List.foldl_cons] at ih ⊢
+    apply ih
+    cases o with
+    | vote v => simp only [apply]; rw [addVote_peerMaj]; exact hs
+    | peer p b => exact setPeerMaj23_peers_nodup s p b hs
+
+-- non-vacuity: a run mixing votes and claims (a repeated and a conflicting one) records 2 peers
+example : ((run svSome (new 5 0 2 vals30) [opv 0 bA, .peer 1 bA, opv 1 bA, .peer 2 bA', .peer 1 bA', .peer 1 bA]).peerMaj.map (·.1))
+    = [1, 2] := by decide
+
 end KV.Props.C02
